@@ -322,6 +322,47 @@ type VerifyOpts struct {
 }
 
 func (e *Engine) VerifyFunction(fn *ssa.Function, fc *FuncContract, opts VerifyOpts) *FuncResult {
+	res := e.verifyFunction(fn, fc, opts)
+	e.checkOptsUsed(fn, fc, res)
+	return res
+}
+
+// checkOptsUsed: an option that grants an assumption about a callback / interface method
+// ("opt callback.f=maypanic", "opt invoke.M=pure") must name a call that the exploration actually
+// met; otherwise the contract is silently talking about a callee that does not exist (renamed
+// local, typo) and e.g. a nopanic clause is vacuous. Reported as a failed static obligation.
+func (e *Engine) checkOptsUsed(fn *ssa.Function, fc *FuncContract, res *FuncResult) {
+	if res == nil || res.Error != "" || res.Capped {
+		return
+	}
+	used := map[string]bool{}
+	for _, n := range res.Notes {
+		if strings.HasPrefix(n, "opt-used:") {
+			used[n[len("opt-used:"):]] = true
+		}
+	}
+	var keys []string
+	for k := range fc.Opts {
+		if strings.HasPrefix(k, "callback.") || strings.HasPrefix(k, "invoke.") {
+			keys = append(keys, k)
+		}
+	}
+	sort.Strings(keys)
+	for _, k := range keys {
+		name := displayNameFor(fn, fc) + "/option(" + k + ")"
+		o := &Oblig{Name: name, Fn: displayNameFor(fn, fc), Kind: "option-used", Props: fc.Props, Text: "opt " + k + "=" + fc.Opts[k] + " names a call met on some explored path (otherwise the assumption it grants is not in force and clauses relying on it are vacuous)", Engines: map[string]int{}}
+		o.Instances = 1
+		if used[k] {
+			o.Unsat = 1
+			o.Engines["path-exploration"]++
+		} else {
+			o.Failures = append(o.Failures, &Failure{Status: "static", Trace: []string{"no call named " + k[strings.Index(k, ".")+1:] + " was met"}})
+		}
+		res.Obligs = append(res.Obligs, o)
+	}
+}
+
+func (e *Engine) verifyFunction(fn *ssa.Function, fc *FuncContract, opts VerifyOpts) *FuncResult {
 	n := 0
 	if v := fc.Opts["split"]; v != "" {
 		n = 1 << uint(atoi(v))
